@@ -239,7 +239,7 @@ def gen_case_forall_disj(rng):
     return dict(heap=heap, doms=doms, binders=[['var', 1], ['var', 2]], sel=sel, cond=['forall', 9, body], form='set_of')
 
 
-def gen_case_forall_expr(rng):
+def gen_case_forall_expr(rng, falsy_values=False):
     """for_all(u.peer, c): the universal argument is an EXPRESSION over the universal variable; several values of u share one
     value of it (few distinct peers), and c depends on u through another path as well (an attribute of u itself)"""
     nobj = rng.randint(4, 7)
@@ -255,8 +255,21 @@ def gen_case_forall_expr(rng):
         body = ['and', body, ['cmp', rng.choice(['==', '!=']), ['map', ['f', F['a']], ['map', ['f', F['peer']], ['var', 9]]],
                               ['lit', rng.randint(0, 2)]], 'fn']
     doms = [[1, rng.sample(range(nobj), rng.randint(2, 3))], [9, rng.sample(range(nobj), rng.randint(2, 4))]]
+    uexpr = ['map', ['f', F['peer']], ['var', 9]]
+    if falsy_values:
+        # the universal argument is an attribute whose values include the FALSY ones (0, '', None, False): each of them is a value
+        # the condition has to hold for, like any other
+        f = rng.choice(['a', 'a', 's', 'n', 'f'])
+        for o in heap:
+            o[F['a']] = rng.choice([0, 0, 1, 2])
+            o[F['b']] = rng.choice([0, 1, 2])
+            o[F['s']] = rng.choice(['', '', 'u'])
+            o[F['n']] = rng.choice([None, None, 0, 2])
+            o[F['f']] = rng.choice([False, False, True])
+        uexpr = ['map', ['f', F[f]], ['var', 9]]
+        body = ['cmp', rng.choice(['!=', '!=', '==']), ['map', ['f', F[f if f != 'a' or rng.random() < 0.5 else 'b']], ['var', 1]], uexpr]
     return dict(heap=heap, doms=doms, binders=[['var', 1]], sel=[['var', 1]],
-                cond=['forall', 9, body, ['map', ['f', F['peer']], ['var', 9]]], form=rng.choice(['entity', 'set_of']))
+                cond=['forall', 9, body, uexpr], form=rng.choice(['entity', 'set_of']))
 
 
 def gen_case_forall_eq(rng):
@@ -301,7 +314,7 @@ def gen_case_forall(rng, tier):
     if rng.random() < 0.2:
         return gen_case_forall_disj(rng)
     if rng.random() < 0.1:
-        return gen_case_forall_expr(rng)
+        return gen_case_forall_expr(rng, falsy_values=rng.random() < 0.4)
     nfree = rng.choice([1, 1, 2])
     heap, doms = _base(rng, nfree, dom_max=3)
     nobj = len(heap)
@@ -388,7 +401,19 @@ def gen_case_sub(rng, tier):
                 ci = ['cmp', '==', ['map', ['f', F['peer']], ['var', outer]], ['var', i]]
             sub = ['subq', i, ci, ['map', ['f', F[rng.choice('ab')]], ['var', i]], 'the']
         cmp_ = ['cmp', rng.choice(OPS), lhs, sub] if the_operand or rng.random() < 0.6 else ['cmp', rng.choice(OPS), sub, lhs]
-        c['cond'] = cmp_ if rng.random() < 0.4 else ['and', c['cond'], cmp_, 'fn'] if rng.random() < 0.6 else ['and', cmp_, c['cond'], 'fn']
+        if not the_operand and rng.random() < 0.4:
+            # the comparison with the sub-query operand as a BRANCH OF A DISJUNCTION (its left branch is asked for its false rows
+            # too: the operand must still range over the sub-query's solutions only), also below a conjunction
+            r = rng.random()
+            if r < 0.45:
+                c['cond'] = ['or', cmp_, c['cond'], rng.choice(['fn', 'op'])]
+            elif r < 0.7:
+                c['cond'] = ['or', c['cond'], cmp_, rng.choice(['fn', 'op'])]
+            else:
+                extra = ['cmp', rng.choice(OPS), ['map', ['f', F[rng.choice('ab')]], ['var', outer]], ['lit', rng.randint(0, 2)]]
+                c['cond'] = ['and', c['cond'], ['or', cmp_, extra, 'fn'], 'fn']
+        else:
+            c['cond'] = cmp_ if rng.random() < 0.4 else ['and', c['cond'], cmp_, 'fn'] if rng.random() < 0.6 else ['and', cmp_, c['cond'], 'fn']
     used = cond_keys(c['cond'], set())
     from qcase import term_keys
     for t in c['sel']:
